@@ -123,8 +123,12 @@ func (s *sched) passThrough(t *thread) bool {
 }
 
 // spawnFree starts an uncontrolled helper goroutine.
-func (s *sched) spawnFree(name string, f func()) {
-	t := &thread{name: name, wake: make(chan struct{}), gen: s.gen, free: true}
+func (s *sched) spawnFree(name string, f func()) { s.spawnFreeGen(name, s.gen, f) }
+
+// spawnFreeGen is spawnFree for a helper that acts on behalf of process
+// generation gen: a helper of a crashed process is as dead as the process.
+func (s *sched) spawnFreeGen(name string, gen int, f func()) {
+	t := &thread{name: name, wake: make(chan struct{}), gen: gen, free: true}
 	s.mu.Lock()
 	s.threads = append(s.threads, t)
 	s.mu.Unlock()
